@@ -1146,6 +1146,24 @@ fn emit_signed(out: &mut CaseOut, idx: &mut usize, args: &Args, signer: &mut Sig
     let mut d = a.clone();
     d.remove(alnum[alnum.len() / 2]);
     push(out, "ContentFlip", &d, &ca, None, "byte_removed");
+    // white space / line-end bytes inserted INSIDE a token (never next to an existing line end, where the S/MIME
+    // canonicalisation LF -> CRLF legitimately makes them disappear): the line-end conversion before the digest must
+    // not swallow them (seeded change C18-A)
+    let inner: Vec<usize> = (cs + 1..ce - 1)
+      .filter(|i| a[*i].is_ascii_alphanumeric() && a[*i - 1].is_ascii_alphanumeric() && a[*i + 1].is_ascii_alphanumeric())
+      .collect();
+    for (k, byte) in [b'\r', b'\r', b'\n', b' ', b'\t', 0u8].iter().enumerate() {
+      let pos = if k == 0 { inner[inner.len() / 3] } else { *r.pick(&inner) };
+      let mut d = a.clone();
+      d.insert(pos, *byte);
+      push(out, "ContentFlip", &d, &ca, None, &format!("byte_inserted_0x{:02x}", byte));
+    }
+    // a second CR in front of an existing CR LF (if the content has CR LF line ends)
+    if let Some(pos) = (cs..ce - 1).find(|i| a[*i] == b'\r' && a[*i + 1] == b'\n') {
+      let mut d = a.clone();
+      d.insert(pos, b'\r');
+      push(out, "ContentFlip", &d, &ca, None, "cr_before_crlf");
+    }
   }
   // one base64 character of the signature value (the tail of the SignedData) changed
   let b64: Vec<usize> = (ss..se).filter(|i| a[*i].is_ascii_alphanumeric() || a[*i] == b'+' || a[*i] == b'/').collect();
